@@ -26,4 +26,9 @@ CLAIMS["C05"] = {
     "text": "Decides on every path of StateMachineBuilder::start's task: no effect before all_valid()==true; every request/installer call/non-schedule event lies behind the Ok|OkUpdateDeferred edge of update_check_allowed and negative decisions only reply Throttled; every RequestBuilder of a check is built from the decision's RequestParams (ping: fixed background) and the builder maps them to installsource/interactivity/updatedisabled/sameversionupdate; perform_install only behind UpdateDecision::Ok on the approved plan; perform_reboot only under Needed(_), built only when reboot_needed()==true and never after an installation error, and only after a most recent reboot_allowed()==true.",
     "note": "oneshot_check (documented caller-forced check) is a named exception for the check/validity gates. Embedder traits are trusted to be reached only through their items.",
 }
+CLAIMS["C04"] = {
+    "technique": "regular-language checks on the interprocedural event skeleton: edge-cut dominance and must-pass-through (both directions) between outcome-labelled edges and State announcements, decision-table extraction of the per-app result closure, iterator adaptor-chain census",
+    "text": "Decides on every CFG path of one check: first effect is CheckingForUpdates(params.source), last are ScheduleChange, ProtocolStateChange, UpdateCheckResult exactly once and in order; each State (ErrorCheckingForUpdate, NoUpdateAvailable, InstallationDeferredByPolicy, InstallingUpdate, InstallationError) and the OmahaServerResponse event is announced only under and always under the outcome the property names; the per-app result is response.apps mapped 1:1 with the exact action table; in the long-running loop every check is followed by one Idle, WaitingForReboot exactly under Needed.",
+    "note": "Values inside events beyond provenance are not decided. Installer contract (one result per offered app, response order) is assumed. Plan-level outcomes give every listed app the same action (source TODO), checked as a uniform-constant rule.",
+}
 NOT_APPLICABLE = {}
